@@ -370,7 +370,18 @@ func (g *gen) chain() []*spb.AFTOperation {
 // invalidOp emits an operation the model classifies as Invalid (must be FAILED, no trace).
 func (g *gen) invalidOp() *spb.AFTOperation {
 	ni := g.ni()
-	switch g.pick(9) {
+	switch g.pick(12) {
+	case 9:
+		// empty network instance name
+		return g.entry(spb.AFTOperation_ADD, Kind(g.pick(5)), "")
+	case 10:
+		// no entry at all
+		return &spb.AFTOperation{Id: g.id(), NetworkInstance: ni, Op: []spb.AFTOperation_Operation{spb.AFTOperation_ADD, spb.AFTOperation_DELETE}[g.pick(2)]}
+	case 11:
+		// unset / undefined operation type
+		o := g.entry(spb.AFTOperation_ADD, Kind(g.pick(5)), ni)
+		o.Op = []spb.AFTOperation_Operation{spb.AFTOperation_INVALID, spb.AFTOperation_Operation(7)}[g.pick(2)]
+		return o
 	case 0:
 		o := g.entry(spb.AFTOperation_ADD, KNH, ni)
 		o.GetNextHop().Index = 0
